@@ -603,10 +603,18 @@ def normalise(ctx):
         f = prog.func(tool)
         got = set()
         for c in astq.func_calls(f):
-            if prog.resolve(f.module, c.func, f) is afs and len(c.args) == 2:
+            tgt = prog.resolve(f.module, c.func, f)
+            if tgt is afs and len(c.args) == 2:
                 r = prog.resolve(f.module, c.args[0], f)
                 if isinstance(r, ClassInfo):
                     got.add(r.short)
+            elif isinstance(tgt, FunctionInfo) and tgt.cls is None:
+                # one hop: a package helper that forwards its family parameter to alias_factory_subclass_from_arg
+                for i, a in enumerate(c.args):
+                    r = prog.resolve(f.module, a, f)
+                    if isinstance(r, ClassInfo) and i < len(tgt.params):
+                        if any(prog.resolve(tgt.module, c2.func, tgt) is afs and len(c2.args) == 2 and astq.is_name(c2.args[0], tgt.params[i]) for c2 in astq.func_calls(tgt)):
+                            got.add(r.short)
         for name, short in want.items():
             ctx.check(short in got, R, f, f.node, "%s builds its %s through alias_factory_subclass_from_arg" % (f.name, name),
                       "%s does not build a %s with alias_factory_subclass_from_arg(%s, ...)" % (f.name, name, name))
